@@ -411,6 +411,9 @@ SYSTEM_NAMES = ["triclinic", "monoclinic", "orthorhombic", "tetragonal7", "tetra
                 "hexagonal", "cubic"]
 NUMSTYLES = ["float", "int", "intV", "longdec"]
 GIVEN = ["independent", "all-nonzero"]
+VALUEKINDS = ["consistent", "within-tolerance"]
+OVERDET_GIVEN = ["one-dependent", "all-nonzero"]      # "independent" leaves nothing that could disagree
+OVERDET_NUMSTYLES = ["float", "longdec"]              # integer-looking columns cannot carry a 0.04 disagreement
 
 # "longdec" inputs carry 9 decimals; the command prints 6.  DESIGN §5 allows half a unit in the last
 # printed digit for printed tables, so this is compared at the printed precision and *counted* (evidence
@@ -427,7 +430,7 @@ def _dec_text(x: Decimal) -> str:
 
 
 def fill_table(system, numstyle, given, case_letter, order, nv, lattice, layout, vref="586.01996000",
-               cellmass="200.782", variant=0):
+               cellmass="200.782", variant=0, valuekind="consistent"):
     """(text, info): a table that is sufficient for `system` and consistent with it.
     `variant` k shifts every number (components, volumes, lattice parameters) so that two tables differ in every slot.
     info: volumes (Decimal), full: per volume {pair: Decimal} of all 21 components as they must come
@@ -463,11 +466,33 @@ def fill_table(system, numstyle, given, case_letter, order, nv, lattice, layout,
             if f[p] == f[p].to_integral_value():        # "503", not "503.0": keep integer-looking columns integer-looking
                 f[p] = f[p].quantize(Decimal(1))
         full.append(f)
+    deps = sorted(S["dependent"])
     if given == "independent":
         cols = indep
+    elif given == "one-dependent":       # the independent ones + the last dependent one (c66 / c55 ...)
+        cols = indep + deps[-1:]
     else:
         cols = R.nonzero_pairs(system)
     cols = order_pairs(cols, order)
+    tab = [{p: full[iv][p] for p in cols} for iv in range(nv)]      # what is written on the page
+    residual = 0.0
+    if valuekind == "within-tolerance":
+        # every tabulated dependent component disagrees with its relation by a few 0.01 (distinct per slot); the
+        # disagreement stays below half the residual tolerance of the fill (sum of squares <= 0.05 < 0.1 per row)
+        if not [p for p in cols if p in deps]:
+            raise HarnessError("within-tolerance needs a tabulated dependent component")
+        for iv in range(nv):
+            for k, p in enumerate(deps):
+                if p in tab[iv]:
+                    delta = Decimal("0.04") + Decimal("0.004") * k + Decimal("0.001") * iv
+                    tab[iv][p] = full[iv][p] + (delta if k % 2 == 0 else -delta)
+            lsq, res = R.fill_lsq(system, {p: float(x) for p, x in tab[iv].items()})
+            residual = max(residual, res)
+            full[iv] = {p: Decimal(str(round(lsq[p], 9))) for p in R.VOIGT_PAIRS}
+        if not residual <= 0.05:
+            raise HarnessError(f"within-tolerance table has residual {residual} > half the tolerance")
+    elif valuekind != "consistent":
+        raise HarnessError(valuekind)
     vols = []
     for iv in range(nv):
         v = Decimal("617.47767") - Decimal("31.45771") * iv + Decimal("11.10301") * variant
@@ -484,7 +509,7 @@ def fill_table(system, numstyle, given, case_letter, order, nv, lattice, layout,
             return _dec_text(v)
         return _dec_text(v) + "000"       # shipped style: 617.47767000
 
-    rows = [[vtext(vols[iv])] + [_dec_text(full[iv][p]) for p in cols] for iv in range(nv)]
+    rows = [[vtext(vols[iv])] + [_dec_text(tab[iv][p]) for p in cols] for iv in range(nv)]
     lat = None
     if lattice:
         lat = [["%.15f" % (1.014113439015351 - 0.0161 * iv + 0.0007 * variant), "%.15f" % (0.878861666717805 - 0.0152 * iv + 0.0007 * variant),
@@ -492,14 +517,14 @@ def fill_table(system, numstyle, given, case_letter, order, nv, lattice, layout,
     names = ["V"] + [R.name_2digit(p, case_letter) for p in cols]
     title = f"V_0 N cellmass {system} (24.305+16.0*3+28.086)*2"
     text = R.write_static(title, vref, nv, cellmass, names, rows, lat, layout)
-    vals = [full[iv][p] for iv in range(nv) for p in indep]
+    vals = [tab[iv][p] for iv in range(nv) for p in indep]
     if len(set(vals)) != len(vals) or any(v == 0 for v in vals):
         raise HarnessError(f"fill table generator: repeated or zero independent value for {system}")
     for iv in range(nv):
         for p in R.nonzero_pairs(system):
             if full[iv][p] == 0:
                 raise HarnessError(f"fill table generator: dependent component {p} vanishes for {system}")
-    return text, {"volumes": vols, "full": full, "given": cols, "indep": indep}
+    return text, {"volumes": vols, "full": full, "given": cols, "indep": indep, "tabulated": tab, "residual": residual}
 
 
 def _fits(x: Decimal, places=6) -> bool:
@@ -615,8 +640,9 @@ def _fill_case(case):
     from cij.io.traditional.elast_dat import read_elast_data, apply_symetry_on_elast_data
     system = case["system"]
     numstyle = case["numstyle"]
+    vkind = case.get("valuekind", "consistent")
     text, info = fill_table(system, numstyle, case["given"], case["letter"], case["order"], case["nv"],
-                            case["lattice"], case["layout"])
+                            case["lattice"], case["layout"], valuekind=vkind)
     in_parse = R.parse_static(text)
     viol = []
     d = tempfile.mkdtemp(dir="/dev/shm", prefix="c17f-")
@@ -629,13 +655,34 @@ def _fill_case(case):
         if code != 0 or exc is not None:
             ename = type(exc).__name__ if exc is not None else f"exit{code}"
             viol.append(V(f"c17:fill:raises:{ename}:{numstyle}-columns",
-                          f"`cij fill -s {system}` on a sufficient, consistent table ({numstyle} numbers, {case['given']} components "
+                          f"`cij fill -s {system}` on a sufficient, {vkind} table ({numstyle} numbers, {case['given']} components "
                           f"given, nv={case['nv']}) ended with exit code {code}, {exc!r}; stdout so far {out1[:120]!r}; "
                           f"input file: {text[:400]!r}"))
             return {"viol": viol, "outcome": f"fill-raises/{ename}", "key": _fill_key(case)}
         strict_all = STRICT_LONG_DECIMALS
         got1, op1 = _check_fill_output(out1, in_parse, info["full"], info["volumes"], system, "fill", viol, d, "out1", strict_all)
         lost = (op1 or {}).get("_lost", 0)
+
+        # a relation whose dependent component was NOT tabulated is met by the emitted numbers themselves, to the
+        # printed precision -- whatever compromise the fit makes between tabulated numbers (a table that mixes
+        # raw and fitted numbers does not)
+        if op1 is not None and len(op1["rows"]) == in_parse["nv"]:
+            badr = []
+            for p, form in R.SYSTEMS[system]["dependent"].items():
+                if p in info["given"] or p not in op1["keys"] or any(q not in op1["keys"] for _, q in form):
+                    continue
+                for iv in range(in_parse["nv"]):
+                    tok = lambda q: op1["row_tokens"][iv][1 + op1["keys"].index(q)]  # noqa: E731
+                    lhs = op1["rows"][iv][p]
+                    rhs = sum(c * op1["rows"][iv][q] for c, q in form)
+                    tol = R.printed_half_unit(tok(p)) + sum(abs(c) * R.printed_half_unit(tok(q)) for c, q in form) + 1e-9 * max(1.0, abs(rhs))
+                    if not abs(lhs - rhs) <= tol:
+                        badr.append((iv, p, lhs, rhs))
+            if badr:
+                iv, p, lhs, rhs = badr[0]
+                viol.append(V("c17:fill:relation-of-untabulated-component",
+                              f"`cij fill -s {system}`: {len(badr)} emitted relation(s) broken, first row {iv}: c{p[0]}{p[1]} printed {lhs!r} "
+                              f"but its relation gives {rhs!r} from the printed partners; input {text[:300]!r}"))
 
         # differential: the library's own symmetry-filled parse of the input
         if got1 is not None and op1 is not None:
@@ -685,7 +732,7 @@ def _fill_case(case):
                     v2.append(V("c17:fill-chain:keys", f"second fill ({s2}) changed the component set {sorted(present)} -> {sorted(op2['keys'])}"))
                 viol.extend(v2)
                 chain_done.append((s2, out2 == out1))
-        outcome = f"fill/{system}/{numstyle}/" + ("digits-dropped" if lost else "exact") + \
+        outcome = f"fill/{system}/{numstyle}/{vkind}/" + ("digits-dropped" if lost else "exact") + \
                   ("/chain-bytes-identical" if chain_done and all(b for _, b in chain_done) else
                    "/chain-reformatted" if chain_done else "")
     finally:
@@ -694,7 +741,8 @@ def _fill_case(case):
 
 
 def _fill_key(case):
-    return "fi" + "/".join(str(case[k]) for k in ("system", "numstyle", "given", "letter", "order", "nv", "lattice", "layout"))
+    return "fi" + "/".join(str(case.get(k, "consistent")) for k in ("system", "numstyle", "given", "valuekind", "letter", "order", "nv",
+                                                                     "lattice", "layout"))
 
 
 def chain_ops(system):
@@ -894,6 +942,13 @@ def _qha_data(name):
                          for v in ref["volumes"]])
 
 
+def _quiet(f, *a):
+    try:
+        return f(*a)
+    except R.FormatError:
+        return None
+
+
 class _In:
     """Run an operation with the working directory set (relative path mode)."""
 
@@ -966,7 +1021,15 @@ def _history_case(case):
         def read(where, label):
             """One read + the oracle.  Returns the object (or None)."""
             cwd, arg, path = place[where]
-            exp = expected(where)
+            try:
+                exp = expected(where)
+            except R.FormatError as e:
+                if static:
+                    raise HarnessError(f"io_ref cannot parse its own table: {e}")
+                # the phonon files of a history are written by cij's writer
+                viol.append(V("c17:history:phonon:ref-cannot-parse",
+                              f"the file write_energy produced (data {content.get(where)}) is not in the phonon data layout: {e}"))
+                return None
             try:
                 with _In(cwd):
                     obj = read_elast_data(arg) if static else read_energy(arg)
@@ -984,7 +1047,7 @@ def _history_case(case):
                 if any(got == e for e in earlier[where]):
                     cause = "stale:equals-earlier-content-of-the-path"
                 elif any(got == e for w in earlier for e in earlier[w]) or any(
-                        w != where and w in content and os.path.exists(place[w][2]) and got == expected(w) for w in place):
+                        w != where and w in content and os.path.exists(place[w][2]) and got == _quiet(expected, w) for w in place):
                     cause = "equals-content-of-another-path"
                 elif any(o in ("fill", "medit", "mpop") for o in done):
                     cause = "carries-in-memory-changes-of-an-earlier-result"
@@ -1120,9 +1183,21 @@ def fill_cases(quick):
             for g in GIVEN:
                 for lat in (0, 1):
                     for cfg, k in minors:
-                        out.append({"kind": "fill", "system": s, "numstyle": ns, "given": g, "lattice": lat,
+                        out.append({"kind": "fill", "system": s, "numstyle": ns, "given": g, "valuekind": "consistent", "lattice": lat,
                                     "letter": cfg["letter"], "order": cfg["order"], "nv": cfg["nv"], "layout": cfg["layout"],
                                     "chain": ops if (not quick or k == 0) else ops[:1]})
+        # value kind "within-tolerance": tabulated components over-determine the relations and disagree slightly.
+        # Only where something can disagree: a system with dependent components, and a dependent one tabulated.
+        # No second fill: the compromise of a slightly inconsistent table is not itself consistent, so fill is not
+        # a fixed point there (and nothing says it should be).
+        if R.SYSTEMS[s]["dependent"]:
+            for ns in OVERDET_NUMSTYLES:
+                for g in OVERDET_GIVEN:
+                    for lat in (0, 1):
+                        for cfg, k in minors:
+                            out.append({"kind": "fill", "system": s, "numstyle": ns, "given": g, "valuekind": "within-tolerance",
+                                        "lattice": lat, "letter": cfg["letter"], "order": cfg["order"], "nv": cfg["nv"],
+                                        "layout": cfg["layout"], "chain": []})
     return out
 
 
@@ -1139,7 +1214,9 @@ def explore(ctx):
         "lines, every slot of a data set holding a distinct number. static: 4 component subsets x 3 column orders x 6 "
         "column spellings x lattice block absent/present x n_V in {1,2,9} x 3 shipped presentations (blanks, padded, "
         "CRLF+tabs), every slot distinct. fill: 9 systems x 4 number styles x {independent, all non-vanishing} "
-        "components given x lattice block (full product) x deviation lattice over presentation {c/C, column order, n_V in "
+        "components given x lattice block (full product), plus value kind `within-tolerance` (tabulated dependent components "
+        "disagree with their relation by 0.04..0.08, residual <= half the tolerance) x 6 systems with dependent components x "
+        "{float, 9-decimal} x {independent + one dependent, all non-vanishing} given x lattice block; each x deviation lattice over presentation {c/C, column order, n_V in "
         "{4,1,9}, layout in {plain, CRLF+tabs, padded}}: bound 1 in quick, full product in thorough; mode B: histories of "
         "length 2 (second `fill` over the enabled systems: same, triclinic, sufficient sub-symmetries; in quick the full "
         "second alphabet only at the default presentation, `same` elsewhere). phonon and static products are complete in "
@@ -1165,6 +1242,13 @@ def explore(ctx):
         "(STRICT_LONG_DECIMALS=False)",
         "histories: fill is enabled only on a result that was not edited (an edited object is not a consistent table); "
         "worker processes are long-lived, so a leak from one case into a later one also shows (fixed-name mode)",
+        "fill of an over-determined, slightly inconsistent table = the unit-weight least-squares compromise between the "
+        "tabulated numbers and the relations (io_ref.fill_lsq: each relation written with coefficient one on its dependent "
+        "component), which is what the library documents and does; it is NOT the orthogonal projection onto the invariant "
+        "subspace, and relations between tabulated components stay violated by a fraction of the input disagreement "
+        "(C09 bounds that by sqrt(residual_atol)); asserted instead: equality with that reference and with the library "
+        "fill at the printed precision, and exact validity (printed precision) of every relation whose dependent "
+        "component was not tabulated",
         "header lines and lattice block are compared verbatim after removing line terminators (CRLF input is re-emitted "
         "with LF by text-mode I/O)",
     ]
@@ -1194,6 +1278,9 @@ def explore(ctx):
         "static": {"subsets": {k: len(v) for k, v in SUBSETS.items()}, "orders": len(ORDERS), "spellings": NAMINGS,
                    "lattice": 2, "n_V": STATIC_NV, "layouts": STATIC_LAYOUTS, "cases": len(st)},
         "fill": {"systems": len(SYSTEM_NAMES), "number_styles": NUMSTYLES, "given": GIVEN, "lattice": 2,
+                 "value_kinds": VALUEKINDS, "within_tolerance": {"systems": [s for s in SYSTEM_NAMES if R.SYSTEMS[s]["dependent"]],
+                                                                 "number_styles": OVERDET_NUMSTYLES, "given": OVERDET_GIVEN,
+                                                                 "cases": sum(1 for c in fi if c["valuekind"] == "within-tolerance")},
                  "presentation_lattice": {"dims": {k: v for k, v in FILL_MINOR.items()}, "bound": 1 if ctx.quick else len(FILL_MINOR),
                                           "configs_in_bound": done_minor, "full_product": full_minor},
                  "cases": len(fi), "histories_depth_le_2": n_hist, "chain_ops": {s: chain_ops(s) for s in SYSTEM_NAMES}},
@@ -1210,6 +1297,9 @@ def explore(ctx):
         "byte identity of fill(fill(x)) with fill(x) (outcome label chain-bytes-identical / chain-reformatted); "
         "asserted instead: equal parse, header lines and lattice block verbatim, same component set",
         "a blank line between table and lattice block (no shipped file has one)",
+        "fill(fill(x)) == fill(x) for a slightly inconsistent x (the least-squares compromise is not itself consistent)",
+        "that the emitted table satisfies relations BETWEEN TABULATED components of a slightly inconsistent input "
+        "(it does not on the unchanged tree, by design of the least-squares fill; C09 owns the sqrt(tolerance) bound)",
         "column spellings other than c11/C11 for the *command* (`fill_cij` only recognises c<digit><digit>)",
     ]
 
@@ -1299,6 +1389,26 @@ def selftest():
                     chk("integer style has integer-looking independent columns",
                         all(tok.lstrip("-").isdigit() for row in rp["row_tokens"] for tok, p in zip(row[1:], rp["keys"])
                             if p in R.SYSTEMS[s]["independent"]))
+    # 7. least-squares fill: the worked example (hexagonal, c66 tabulated 0.2 above (c11-c12)/2), agreement with the
+    #    exact fill on consistent input, and every enumerated within-tolerance table stays below half the tolerance
+    x, res = R.fill_lsq("hexagonal", {(1, 1): 300.0, (1, 2): 100.0, (1, 3): 80.0, (3, 3): 250.0, (4, 4): 60.0, (6, 6): 100.2})
+    chk("fill_lsq worked example", all(abs(x[p] - v) < 1e-9 for p, v in {(1, 1): 300.04, (1, 2): 99.96, (6, 6): 100.12, (2, 2): 300.04,
+                                                                            (1, 3): 80.0, (2, 3): 80.0, (5, 5): 60.0, (1, 4): 0.0}.items())
+        and abs(res - 0.016) < 1e-9)
+    for s in SYSTEM_NAMES:
+        ind = {p: 100.0 + 17.3 * i + 0.7 * i * i for i, p in enumerate(R.SYSTEMS[s]["independent"])}
+        full = R.fill_reference(s, ind)
+        for given in (ind, {p: full[p] for p in R.nonzero_pairs(s)}):
+            x, res = R.fill_lsq(s, given)
+            chk("fill_lsq equals the exact fill on consistent input", res < 1e-18 and all(abs(x[p] - full[p]) < 1e-9 for p in R.VOIGT_PAIRS))
+        if R.SYSTEMS[s]["dependent"]:
+            for g in OVERDET_GIVEN:
+                for ns in OVERDET_NUMSTYLES:
+                    text, info = fill_table(s, ns, g, "c", "voigt", 9, 1, "plain", valuekind="within-tolerance")
+                    rp = R.parse_static(text)
+                    chk("within-tolerance table: residual in (0, 0.05]", 1e-4 < info["residual"] <= 0.05)
+                    moved = sum(1 for iv in range(9) for p in rp["keys"] if abs(rp["rows"][iv][p] - float(info["full"][iv][p])) > 1e-3)
+                    chk("within-tolerance table: the fill must move tabulated numbers", moved >= 9)
     chk("printed_half_unit", R.printed_half_unit("399.200123") == 0.5e-6 and R.printed_half_unit("61") == 0.5 and
         abs(R.printed_half_unit("1.5e-07") - 0.5e-8) < 1e-20)
     if fails:
